@@ -215,17 +215,24 @@ package compile
 // ---------------------------------------------------------------------------
 // Range restrictions (C13): every range of a derived type is a subset of the base's range set - every value between
 // its bounds lies in some base range, where adjacent whole-number base ranges may be spanned - or compilation ends
-// through comp.error. Values are quantified as boxed whole numbers, or as float64 for decimal64 ranges.
+// through comp.error. For whole-number kinds every value between the bounds is quantified (boxed Int); decimal64 ranges
+// are real intervals that are never adjacent, so a derived interval must lie inside ONE base interval, and its bounds
+// are numbers (the range argument's boundaries are decimal literals, see lexdec).
 //@ define ibox(x) = smt("Iface", "(mk_iface 0 (bx$Int %s))", x)
 //@ define fbox(x) = smt("Iface", "(mk_iface 0 (bx$F64 %s))", x)
 //@ define inB(b, v, hi) = exists(i, 0, hi, !rb_lt(b, v, rb_start(b, i)) && !rb_gt(b, v, rb_end(b, i)))
 //@ define covI(b, lo, hi, n) = forallint(x, implies(!rb_lt(b, ibox(x), lo) && !rb_gt(b, ibox(x), hi), inB(b, ibox(x), n)))
-//@ define covF(b, lo, hi, n) = forallsmt(x, "F64", implies(!rb_lt(b, fbox(x), lo) && !rb_gt(b, fbox(x), hi), inB(b, fbox(x), n)))
+//@ define covF(b, lo, hi, n) = exists(i, 0, n, !rb_lt(b, lo, rb_start(b, i)) && !rb_gt(b, hi, rb_end(b, i)))
 //@ define cov(b, lo, hi, n) = ite(is(b, schema.DrbSlice), covF(b, lo, hi, n), covI(b, lo, hi, n))
+//@ define notnum(v) = smt("Bool", "(fp.isNaN (ub$F64 (i_box %s)))", v)
 //@ define kindOf(r, b) = smt("Bool", "(= (i_tag %s) (i_tag %s))", r, b)
 //@ func (*Compiler).createRangeBdry
-//@   requires comp != nil && node != nil && base_rb != nil && rb_len(base_rb) >= 1
+//@   requires comp != nil && node != nil && base_rb != nil && rb_len(base_rb) >= 1 && len(parsed_rbs) >= 1
+//@   requires forall(k, 0, len(parsed_rbs), (parsed_rbs[k].Min || lexdec(parsed_rbs[k].Start)) && (parsed_rbs[k].Max || lexdec(parsed_rbs[k].End)))
+//@   requires implies(is(base_rb, schema.DrbSlice), forall(i, 0, rb_len(base_rb), !notnum(rb_start(base_rb, i)) && !notnum(rb_end(base_rb, i))))
 //@   ensures result != nil && rb_len(result) == len(parsed_rbs) && forall(k, 0, rb_len(result), cov(base_rb, rb_start(result, k), rb_end(result, k), rb_len(base_rb)))
+//@   ensures implies(is(base_rb, schema.DrbSlice), forall(k, 0, rb_len(result), !notnum(rb_start(result, k)) && !notnum(rb_end(result, k))))
 //@   loop 0 invariant rangeBdrySlice != nil && kindOf(rangeBdrySlice, base_rb) && rb_len(rangeBdrySlice) == loopidx + 1
 //@   loop 0 invariant forall(k, 0, rb_len(rangeBdrySlice), cov(base_rb, rb_start(rangeBdrySlice, k), rb_end(rangeBdrySlice, k), rb_len(base_rb)))
-//@   loop 1 invariant 0 <= index && index <= rb_len(base_rb) && implies(index >= 1, !rb_lt(base_rb, start, rangeMin) && rangeMax == rb_end(base_rb, index-1) && cov(base_rb, rangeMin, rangeMax, index))
+//@   loop 0 invariant implies(is(base_rb, schema.DrbSlice), forall(k, 0, rb_len(rangeBdrySlice), !notnum(rb_start(rangeBdrySlice, k)) && !notnum(rb_end(rangeBdrySlice, k))))
+//@   loop 1 invariant 0 <= index && index <= rb_len(base_rb) && implies(index >= 1, !rb_lt(base_rb, start, rangeMin) && rangeMax == rb_end(base_rb, index-1) && cov(base_rb, rangeMin, rangeMax, index) && implies(is(base_rb, schema.DrbSlice), rangeMin == rb_start(base_rb, index-1)))
